@@ -1,0 +1,7 @@
+//! Verification hooks (only compiled with the cargo feature `verif`).
+//!
+//! Nothing in here changes the behaviour of the tower: it re-exports crate-private items the
+//! external verification harness needs to drive.
+
+/// The bounded index of recently confirmed transactions (crate-private otherwise).
+pub use crate::tx_index::{Key, TxIndex, Value};
